@@ -74,7 +74,9 @@ def run_one_schedule(args):
         hung = [p for p, r in results.items() if r.get('hung') or r.get('timeout')]
         obs.append(fin)
         trace = [[s['p'], s['op'], s['raw'], s['res']] for s in steps]
+        from harness import opspec
         return {'scen': scen, 'preempts': preempts, 'obs': obs, 'nsteps': len(steps), 'hung': hung, 'trace': trace,
+                'events': opspec.events_of_steps(box, steps),
                 'first': {p: next((i for i, s in enumerate(steps) if s['p'] == p), None) for p in pn}}
     finally:
         box.destroy()
